@@ -177,6 +177,19 @@ struct World {
 const REL_AUTH: Scope = Some(0);
 const REL_ASSERT: Scope = Some(1);
 
+/// The DID spelled so that it is no DID any more, while a WHATWG URL parser normalises it back into one.
+fn spelled_variant(did: &str) -> String {
+  match ctx::choose(4) {
+    0 => format!(" {did}"),
+    1 => format!("{did}\n"),
+    2 => {
+      let cut = 4 + ctx::choose(did.len() - 5);
+      format!("{}\t{}", &did[..cut], &did[cut..])
+    }
+    _ => format!("DID{}", &did[3..]),
+  }
+}
+
 /// `s` is a syntactically valid DID followed by a non-empty path, query or fragment.
 fn is_did_url_with_component(s: &str) -> bool {
   match s.find(['#', '/', '?']) {
@@ -399,8 +412,16 @@ fn issue_crafted(w: &mut World, step: usize) {
     return;
   }
   let (frag, _) = p.methods[ctx::choose(p.methods.len())].clone();
-  let kind = ["vc_expiration_without_exp", "vc_issuer_mismatch", "vc_issuance_mismatch", "exp_out_of_range", "sub_mismatch", "nbf_and_iat", "vc_date_outside_range_after_offset"]
-    [ctx::choose(7)];
+  let kind = [
+    "vc_expiration_without_exp",
+    "vc_issuer_mismatch",
+    "vc_issuance_mismatch",
+    "exp_out_of_range",
+    "sub_mismatch",
+    "nbf_and_iat",
+    "vc_date_outside_range_after_offset",
+    "iss_spelled_with_whitespace_or_uppercase_scheme",
+  ][ctx::choose(8)];
   let mut claims = serde_json::json!({
     "iss": p.did,
     "nbf": now_i - 100,
@@ -417,6 +438,11 @@ fn issue_crafted(w: &mut World, step: usize) {
     "vc_issuer_mismatch" => claims["vc"]["issuer"] = "did:sim:someoneelse".into(),
     "vc_issuance_mismatch" => claims["vc"]["issuanceDate"] = crate::core::time::rfc3339(now_i - 5000).into(),
     "exp_out_of_range" => claims["exp"] = Value::from(1_000_000_000_000_000i64),
+    "iss_spelled_with_whitespace_or_uppercase_scheme" => {
+      // not the issuer's DID (not a DID at all), although a URL parser that strips blanks, drops TAB / LF / CR and
+      // lower-cases the scheme would turn it into one
+      claims["iss"] = spelled_variant(&p.did).into();
+    }
     "vc_date_outside_range_after_offset" => {
       // RFC 3339 strings that denote an instant outside years 0000-9999 once the offset is applied: not a date the
       // credential model can carry (and no registered claim agrees with it)
@@ -575,7 +601,8 @@ fn present_crafted(w: &mut World, step: usize) {
     "nbf_and_iat",
     "kid_names_no_did_of_the_document",
     "issuance_time_not_an_integer",
-  ][ctx::choose(8)];
+    "iss_spelled_with_whitespace_or_uppercase_scheme",
+  ][ctx::choose(9)];
   let now_h = w.clock.now + w.parties[h].skew;
   let mut claims = serde_json::json!({
     "iss": p.did,
@@ -595,6 +622,7 @@ fn present_crafted(w: &mut World, step: usize) {
       claims["iat"] = Value::from(now_h - 300);
     }
     "kid_names_no_did_of_the_document" => {}
+    "iss_spelled_with_whitespace_or_uppercase_scheme" => claims["iss"] = spelled_variant(&p.did).into(),
     "issuance_time_not_an_integer" => {
       // a NumericDate far in the future that is not a JSON integer (RFC 7519 allows fractions), or an integer nbf in
       // the future next to an ill-typed iat: the token is not yet valid, or not well formed - never acceptable
@@ -1072,6 +1100,12 @@ fn validate_credential(w: &mut World, step: usize) {
                     pre = Some("CredentialStructure");
                     pre_label = "claims";
                   }
+                  Some(c) if crafted == Some("iss_spelled_with_whitespace_or_uppercase_scheme") => {
+                    let _ = c;
+                    pre = Some("SignerUrl");
+                    pre_label = "issuer_spelled_with_whitespace_or_uppercase_scheme";
+                    ctx::stat("false.issuer_spelled_with_whitespace_or_uppercase_scheme");
+                  }
                   Some(_) if crafted.is_some() => {
                     // duplicated values disagree / lack their registered claim / numeric date out of range
                     pre = Some("CredentialStructure");
@@ -1222,7 +1256,7 @@ fn validate_credential(w: &mut World, step: usize) {
   }
   // ---- verify_signature against a LIST of trusted issuer documents: the document is chosen by the DID of the
   // method id, not by position; the outcome must be the one of conditions 1-8 for the document with that DID ----
-  if pre_label != "document_mismatch" && pre_label != "decode" && ctx::chance(1, 4) {
+  if pre_label != "document_mismatch" && pre_label != "decode" && pre_label != "issuer_spelled_with_whitespace_or_uppercase_scheme" && ctx::chance(1, 4) {
     let mut docs: Vec<CoreDocument> = Vec::new();
     for p in 0..w.parties.len() {
       if w.parties[p].did != sup.did && ctx::choose(2) == 0 {
@@ -1296,7 +1330,12 @@ fn validate_credential(w: &mut World, step: usize) {
         ctx::violation(
           "C02",
           "C02.accept_only_if_all_conditions",
-          format!("accepted-despite/{truth_vector}/{mv:?}"),
+          if pre_label == "issuer_spelled_with_whitespace_or_uppercase_scheme" {
+            // one defect, one signature: independent of what else happened to the token on its way
+            "accepted-despite/issuer_spelled_with_whitespace_or_uppercase_scheme".to_owned()
+          } else {
+            format!("accepted-despite/{truth_vector}/{mv:?}")
+          },
           format!("credential accepted although these conditions are false: [{truth_vector}] (token {mv:?}, document v{} of {})", sup.version, sup.did),
         );
       } else if let Some(tc) = truth_cred {
@@ -1329,7 +1368,9 @@ fn validate_credential(w: &mut World, step: usize) {
         ctx::stat("observation.rejected_although_all_conditions_hold");
       }
       // error identification
-      if let Some(want) = pre {
+      if pre_label == "issuer_spelled_with_whitespace_or_uppercase_scheme" {
+        // (rejected for this or for another false condition: either way an error)
+      } else if let Some(want) = pre {
         let ok = if mutated {
           // a bit flip / truncation may change header semantics in ways the harness model does not replicate;
           // any pre-signature or signature error identifies it
@@ -1523,6 +1564,10 @@ fn validate_presentation(w: &mut World, step: usize) {
                     });
                     label = "issuance_time_ill_typed_or_in_the_future";
                     ctx::stat("false.p.issuance_time_ill_typed");
+                  } else if tp.crafted == Some("iss_spelled_with_whitespace_or_uppercase_scheme") {
+                    want = Some("SignerUrl|DocumentMismatch|PresentationStructure");
+                    label = "issuer_spelled_with_whitespace_or_uppercase_scheme";
+                    ctx::stat("false.p.issuer_spelled_with_whitespace_or_uppercase_scheme");
                   } else if !is_did(iss) {
                     want = Some("SignerUrl");
                     label = "issuer_not_did";
@@ -1587,7 +1632,11 @@ fn validate_presentation(w: &mut World, step: usize) {
         (Some(_), _) | (None, None) => ctx::violation(
           "C03",
           "C03.accept_only_if_bound_to_holder",
-          format!("accepted-despite/{label}/{mv:?}"),
+          if label == "issuer_spelled_with_whitespace_or_uppercase_scheme" {
+            "accepted-despite/issuer_spelled_with_whitespace_or_uppercase_scheme".to_owned()
+          } else {
+            format!("accepted-despite/{label}/{mv:?}")
+          },
           format!("presentation accepted although condition [{label}] is false (token {mv:?}, holder document v{} of {})", sup.version, sup.did),
         ),
         (None, Some(tp)) => {
